@@ -289,12 +289,12 @@ def r2(ctx: Ctx, rid: str) -> None:
 
 
 # ------------------------------------------------------------------------ R3
-def regex_first_literal_and_anchors(pattern: str) -> Tuple[Optional[str], bool, bool]:
+def regex_first_literal_and_anchors(pattern) -> Tuple[Optional[str], bool, bool]:  # type: ignore[no-untyped-def]
     try:
         import re._parser as sre_parse  # py311+
     except ImportError:  # pragma: no cover
         import sre_parse  # type: ignore
-    p = sre_parse.parse(pattern)
+    p = sre_parse.parse(pattern.pattern, pattern.flags) if hasattr(pattern, "pattern") else sre_parse.parse(pattern)
     items = list(p)
     anchored_start = bool(items) and str(items[0][0]) == "AT" and "BEGINNING" in str(items[0][1])
     anchored_end = bool(items) and str(items[-1][0]) == "AT" and "END" in str(items[-1][1])
@@ -308,12 +308,15 @@ def regex_first_literal_and_anchors(pattern: str) -> Tuple[Optional[str], bool, 
     return first, anchored_start, anchored_end
 
 
-def metadata_regex(ctx: Ctx) -> str:
+def metadata_regex(ctx: Ctx):  # type: ignore[no-untyped-def]
+    """The metadata-file regex as a compiled pattern (flags such as re.VERBOSE honoured, named groups kept)."""
+    from .common import compiled_regex
     m = ctx.prog.modules["datashard.metadata_manager"]
     e = m.consts.get("_METADATA_FILE_RE")
-    if not (isinstance(e, ast.Call) and e.args and isinstance(e.args[0], ast.Constant)):
-        raise AnalysisError("anchor vanished: _METADATA_FILE_RE")
-    return str(e.args[0].value)
+    rx = compiled_regex(ctx, m, e)
+    if rx is None:
+        raise AnalysisError("anchor vanished: _METADATA_FILE_RE is not re.compile(<constant pattern>[, <flags>])")
+    return rx
 
 
 def r3(ctx: Ctx, rid: str) -> None:
